@@ -13,37 +13,37 @@ Print Assumptions C16_refinement.
 
 (* the simulation behind it, node by node: every run that does not end in an exception is reproduced, with the
    same context, text and completion (also break / continue), by the default undefined type *)
-Theorem C16_simulation : forall fuel uk ld n c c' o s,
-  exec fuel (Env MStrict uk ld) n c = Done c' o s -> no_raise s ->
-  exec fuel (Env MStrict UDefault ld) n c = Done c' o s.
+Theorem C16_simulation : forall fuel uk ld ft, filters_refine ft -> forall n c c' o s,
+  exec fuel (Env MStrict uk ld ft) n c = Done c' o s -> no_raise s ->
+  exec fuel (Env MStrict UDefault ld ft) n c = Done c' o s.
 Proof. exact exec_refines. Qed.
 Print Assumptions C16_simulation.
 
 (* StrictUndefined: outputting a missing variable (with or without filters) raises UndefinedError ... *)
-Theorem C16_strict_raises_on_output : forall f md ld c e fs,
-  eval_expr UStrict c e = Ok VUndef ->
-  exec (S f) (Env md UStrict ld) (NOut (FPlain e fs)) c = Done c [] (Raise EUndefined).
+Theorem C16_strict_raises_on_output : forall f md ld ft c e fs,
+  eval_expr UStrict c e = Ok VUndef -> (forall flt, hd_error fs = Some flt -> concrete flt) ->
+  exec (S f) (Env md UStrict ld ft) (NOut (FPlain e fs)) c = Done c [] (Raise EUndefined).
 Proof. exact strict_output_raises. Qed.
 Print Assumptions C16_strict_raises_on_output.
 
 (* ... filtering it does, even if the result is only assigned ... *)
-Theorem C16_strict_raises_on_filter : forall f md ld c x e flt fs,
-  eval_expr UStrict c e = Ok VUndef ->
-  exec (S f) (Env md UStrict ld) (NAssign x (FPlain e (flt :: fs))) c = Done c [] (Raise EUndefined).
+Theorem C16_strict_raises_on_filter : forall f md ld ft c x e flt fs,
+  eval_expr UStrict c e = Ok VUndef -> concrete flt ->
+  exec (S f) (Env md UStrict ld ft) (NAssign x (FPlain e (flt :: fs))) c = Done c [] (Raise EUndefined).
 Proof. exact strict_filter_raises. Qed.
 Print Assumptions C16_strict_raises_on_filter.
 
 (* ... iterating it does ... *)
-Theorem C16_strict_raises_on_iterate : forall f md ld c x p body els,
+Theorem C16_strict_raises_on_iterate : forall f md ld ft c x p body els,
   eval_path UStrict c p = Ok VUndef ->
-  exec (S f) (Env md UStrict ld) (NFor x (IPath p) body els) c = Done c [] (Raise EUndefined).
+  exec (S f) (Env md UStrict ld ft) (NFor x (IPath p) body els) c = Done c [] (Raise EUndefined).
 Proof. exact strict_iterate_raises. Qed.
 Print Assumptions C16_strict_raises_on_iterate.
 
 (* ... and comparing or testing it does (the first operand of the condition) *)
-Theorem C16_strict_raises_on_compare : forall f md ld c cd th el,
+Theorem C16_strict_raises_on_compare : forall f md ld ft c cd th el,
   eval_expr UStrict c (atom_expr (cond_head cd)) = Ok VUndef ->
-  exec (S f) (Env md UStrict ld) (NIf cd th el) c = Done c [] (Raise EUndefined).
+  exec (S f) (Env md UStrict ld ft) (NIf cd th el) c = Done c [] (Raise EUndefined).
 Proof. exact strict_compare_raises. Qed.
 Print Assumptions C16_strict_raises_on_compare.
 
@@ -54,13 +54,16 @@ Proof. exact missing_name_is_undefined. Qed.
 Print Assumptions C16_missing_variable_is_undefined.
 
 (* which use of an undefined value each type permits *)
-Theorem C16_use_table : forall uk,
+Theorem C16_use_table : forall uk g ft c,
   to_output uk VUndef = (if strict_kind uk then Err EUndefined else Ok []) /\
-  items_of uk VUndef = (if strict_kind uk then Err EUndefined else Ok []) /\
-  apply_filter uk FUpcase VUndef = (if strict_kind uk then Err EUndefined else Ok (VStr [])) /\
-  apply_filter uk FSize VUndef = (if strict_kind uk then Err EUndefined else Ok (VInt 0)) /\
+  items_of g uk VUndef = (if strict_kind uk then Err EUndefined else Ok []) /\
+  apply_filter ft uk c FUpcase VUndef = (if strict_kind uk then Err EUndefined else Ok (VStr [])) /\
+  apply_filter ft uk c FSize VUndef = (if strict_kind uk then Err EUndefined else Ok (VInt 0)) /\
   truthy uk VUndef = (if probe_raises uk then Err EUndefined else Ok false) /\
-  (forall l, apply_filter uk (FDefault l) VUndef = match uk with UStrict => Err EUndefined | _ => Ok (val_of_scalar l) end).
+  (forall l, apply_filter ft uk c (FDefault l) VUndef = match uk with UStrict => Err EUndefined | _ => Ok (val_of_scalar l) end) /\
+  (forall attr, apply_filter ft uk c (FHas attr None) VUndef = (if strict_kind uk then Err EUndefined else Ok (VBool false))) /\
+  (forall l attr, has_filter uk (VList l) attr VUndef =
+                  (if probe_raises uk then Err EUndefined else has_filter uk (VList l) attr VNil)).
 Proof. exact undefined_use_table. Qed.
 Print Assumptions C16_use_table.
 
@@ -70,8 +73,8 @@ Theorem C16_default_never_raises : forall k, run_case (with_uk k UDefault) <> Er
 Proof. exact run_case_default_never_undefined. Qed.
 Print Assumptions C16_default_never_raises.
 
-Theorem C16_default_never_raises_node : forall fuel md ld n c c' o s,
-  exec fuel (Env md UDefault ld) n c = Done c' o s -> s <> Raise EUndefined.
+Theorem C16_default_never_raises_node : forall fuel md ld ft, filters_default_ok ft -> forall n c c' o s,
+  exec fuel (Env md UDefault ld ft) n c = Done c' o s -> s <> Raise EUndefined.
 Proof. exact exec_default_never_undefined. Qed.
 Print Assumptions C16_default_never_raises_node.
 
@@ -80,10 +83,45 @@ Theorem C16_default_path_total : forall c p, exists v, eval_path UDefault c p = 
 Proof. exact eval_path_default_total. Qed.
 Print Assumptions C16_default_path_total.
 
+(* ---- filters in general ---- *)
+(* the condition: C16_simulation (and with it the refinement) holds for EVERY table of abstract filters each of which
+   returns under the default type whatever it returns under a strict type (filters_refine); C16_default_never_raises_node
+   for every table whose filters never fail with UndefinedError under the default type.  A sufficient SHAPE: a guarded
+   filter consults the undefined type only to decide whether an undefined left value / argument raises, and otherwise
+   computes a fixed function of the values with undefined replaced by empty / nil *)
+Theorem C16_guarded_filters_refine : forall rin rarg empty core,
+  rin UDefault = false -> rarg UDefault = false ->
+  (forall uk v args r, guarded rin rarg empty core uk v args = Ok r -> guarded rin rarg empty core UDefault v args = Ok r) /\
+  ((forall v args, core v args <> Err EUndefined) -> forall v args, guarded rin rarg empty core UDefault v args <> Err EUndefined).
+Proof.
+  intros rin rarg empty core Hi Ha. split.
+  - exact (guarded_refines rin rarg empty core Hi Ha).
+  - intro Hc. exact (guarded_default_ok rin rarg empty core Hi Ha Hc).
+Qed.
+Print Assumptions C16_guarded_filters_refine.
+
+(* the built-in `has` (with its is_undefined guard) is a guarded filter, for every input ... *)
+Theorem C16_has_is_guarded : forall uk v attr w,
+  has_filter uk v attr w =
+  guarded strict_kind probe_raises (VList []) (fun v' ws => has_filter UDefault v' attr (hd VNil ws)) uk v [w].
+Proof. exact has_is_guarded. Qed.
+Print Assumptions C16_has_is_guarded.
+
+(* ... hence refines the default type *)
+Theorem C16_has_refines : forall uk v attr w r, has_filter uk v attr w = Ok r -> has_filter UDefault v attr w = Ok r.
+Proof. exact has_filter_ref. Qed.
+Print Assumptions C16_has_refines.
+
+(* witness for the seeded variant without the guard: FalsyStrictUndefined renders, and not what the default type renders *)
+Theorem C16_has_unguarded_refuted :
+  exists v attr w r, has_filter_unguarded UFalsy v attr w = Ok r /\ has_filter_unguarded UDefault v attr w <> Ok r.
+Proof. exact has_unguarded_not_refining. Qed.
+Print Assumptions C16_has_unguarded_refuted.
+
 (* ---- non-vacuity and reading aids (tests) ---- *)
 Definition ex_p (r : string) := Path (slit r) [].
 Definition ex_case (u : ukind) : case :=
-  Case MStrict u [] [(slit "d", VDict [(slit "a", VInt 1)])] [] [] []
+  Case MStrict u default_flags [] [(slit "d", VDict [(slit "a", VInt 1)])] [] [] []
     [NAssign (slit "v") (FPlain (EPath (ex_p "nosuch")) []);
      NOut (FPlain (EPath (ex_p "nosuch")) [FDefault (LStr (slit "dflt"))]);
      NIf (COr (CTruthy (EPath (Path (slit "d") [SKey Dot (KName (slit "a"))]))) (CAtom (CTruthy (EPath (ex_p "nosuch"))))) [NText (slit "t")] []].
@@ -98,3 +136,19 @@ Proof. vm_compute. repeat split. Qed.
 Example C16_lax_mode_swallows :
   run_case lax_witness = Ok (slit ".") /\ run_case (with_uk lax_witness UDefault) = Ok (slit "f.").
 Proof. exact refinement_needs_strict_mode. Qed.
+
+(* the two conditions are satisfiable: the table of the generated cases, and a table made of one guarded filter *)
+Example C16_filter_conditions_satisfiable :
+  filters_refine no_filters /\ filters_default_ok no_filters /\
+  filters_refine (fun _ => guarded strict_kind probe_raises (VList []) (fun v _ => Ok v)).
+Proof.
+  split; [exact no_filters_refine|]. split; [exact no_filters_default_ok|].
+  intros id uk v args r. apply guarded_refines; reflexivity.
+Qed.
+
+Example C16_has_example :
+  let arr := VList [VDict [(slit "a", VInt 1)]; VDict [(slit "b", VBool false)]] in
+  has_filter UDefault arr (slit "a") VUndef = Ok (VBool true) /\ has_filter UFalsy arr (slit "a") VUndef = Ok (VBool true) /\
+  has_filter UStrict arr (slit "a") VUndef = Err EUndefined /\ has_filter UFalsy VUndef (slit "a") VNil = Err EUndefined /\
+  has_filter UDefault arr (slit "b") (VBool false) = Ok (VBool true) /\ has_filter UDefault arr (slit "zz") VNil = Ok (VBool false).
+Proof. vm_compute. repeat split. Qed.
